@@ -241,210 +241,6 @@ Proof.
       destruct (snd x <? ma); discriminate.
 Qed.
 
-Section OneOracle.
-Variable oo : order_oracle.
-Hypothesis Hoo : ord_ok oo.
-
-Lemma get_max_item_spec : forall l,
-  match get_max_item oo l with
-  | None => l_items l = []
-  | Some kv => is_max (l_items l) kv
-  end.
-Proof.
-  intros l. unfold get_max_item. pose proof (max_fold_spec (ord_items oo (l_items l)) None) as H.
-  destruct (fold_left max_step (ord_items oo (l_items l)) None) as [kv|].
-  - destruct H as [[Hin|Hin] [Hall _]]; [|discriminate]. split.
-    + apply (ord_items_in oo _ _ Hoo). exact Hin.
-    + intros x Hx. apply Hall. apply (ord_items_in oo _ _ Hoo). exact Hx.
-  - destruct H as [_ H]. apply (ord_items_nil oo _ Hoo). exact H.
-Qed.
-
-Lemma get_min_item_spec : forall l,
-  match get_min_item oo l with
-  | None => l_items l = []
-  | Some kv => is_min (l_items l) kv
-  end.
-Proof.
-  intros l. unfold get_min_item. pose proof (min_fold_spec (ord_items oo (l_items l)) None) as H.
-  destruct (fold_left min_step (ord_items oo (l_items l)) None) as [kv|].
-  - destruct H as [[Hin|Hin] [Hall _]]; [|discriminate]. split.
-    + apply (ord_items_in oo _ _ Hoo). exact Hin.
-    + intros x Hx. apply Hall. apply (ord_items_in oo _ _ Hoo). exact Hx.
-  - destruct H as [_ H]. apply (ord_items_nil oo _ Hoo). exact H.
-Qed.
-
-(* the unwraps guarded by an emptiness test in ink_list.rs are safe *)
-Lemma get_max_item_none : forall l, get_max_item oo l = None <-> list_is_empty l = true.
-Proof.
-  intros l. pose proof (get_max_item_spec l) as H. unfold list_is_empty, items_is_empty.
-  destruct (get_max_item oo l) as [kv|].
-  - destruct H as [Hin _]. split; [discriminate|]. destruct (l_items l); [contradiction|discriminate].
-  - rewrite H. split; reflexivity.
-Qed.
-Lemma get_min_item_none : forall l, get_min_item oo l = None <-> list_is_empty l = true.
-Proof.
-  intros l. pose proof (get_min_item_spec l) as H. unfold list_is_empty, items_is_empty.
-  destruct (get_min_item oo l) as [kv|].
-  - destruct H as [Hin _]. split; [discriminate|]. destruct (l_items l); [contradiction|discriminate].
-  - rewrite H. split; reflexivity.
-Qed.
-End OneOracle.
-
-(* the VALUE of the extreme item never depends on the order; the ITEM does not either
-   when no two items have the same value *)
-Definition max_value (oo : order_oracle) (l : inklist) : option Z := option_map snd (get_max_item oo l).
-Definition min_value (oo : order_oracle) (l : inklist) : option Z := option_map snd (get_min_item oo l).
-
-Lemma is_max_value_unique : forall m a b, is_max m a -> is_max m b -> snd a = snd b.
-Proof. intros m a b [Ha Ha'] [Hb Hb']. specialize (Ha' _ Hb). specialize (Hb' _ Ha). lia. Qed.
-Lemma is_min_value_unique : forall m a b, is_min m a -> is_min m b -> snd a = snd b.
-Proof. intros m a b [Ha Ha'] [Hb Hb']. specialize (Ha' _ Hb). specialize (Hb' _ Ha). lia. Qed.
-
-Lemma is_max_perm : forall m m' a, Permutation m m' -> is_max m a -> is_max m' a.
-Proof.
-  intros m m' a Hp [Hin Hall]. split; [eapply Permutation_in; eassumption|].
-  intros x Hx. apply Hall. eapply Permutation_in; [apply Permutation_sym; exact Hp|exact Hx].
-Qed.
-Lemma is_min_perm : forall m m' a, Permutation m m' -> is_min m a -> is_min m' a.
-Proof.
-  intros m m' a Hp [Hin Hall]. split; [eapply Permutation_in; eassumption|].
-  intros x Hx. apply Hall. eapply Permutation_in; [apply Permutation_sym; exact Hp|exact Hx].
-Qed.
-
-Theorem max_value_order_independent : forall oo1 oo2 l l',
-  ord_ok oo1 -> ord_ok oo2 -> Permutation (l_items l) (l_items l') ->
-  max_value oo1 l = max_value oo2 l'.
-Proof.
-  intros oo1 oo2 l l' H1 H2 Hp. unfold max_value.
-  pose proof (get_max_item_spec oo1 H1 l) as A. pose proof (get_max_item_spec oo2 H2 l') as B.
-  destruct (get_max_item oo1 l) as [a|], (get_max_item oo2 l') as [b|]; cbn.
-  - f_equal. eapply is_max_value_unique; [eapply is_max_perm; eassumption|exact B].
-  - destruct A as [Hin _]. rewrite B in Hp. apply Permutation_sym, Permutation_nil in Hp. rewrite Hp in Hin. contradiction.
-  - destruct B as [Hin _]. rewrite A in Hp. apply Permutation_nil in Hp. rewrite Hp in Hin. contradiction.
-  - reflexivity.
-Qed.
-
-Theorem min_value_order_independent : forall oo1 oo2 l l',
-  ord_ok oo1 -> ord_ok oo2 -> Permutation (l_items l) (l_items l') ->
-  min_value oo1 l = min_value oo2 l'.
-Proof.
-  intros oo1 oo2 l l' H1 H2 Hp. unfold min_value.
-  pose proof (get_min_item_spec oo1 H1 l) as A. pose proof (get_min_item_spec oo2 H2 l') as B.
-  destruct (get_min_item oo1 l) as [a|], (get_min_item oo2 l') as [b|]; cbn.
-  - f_equal. eapply is_min_value_unique; [eapply is_min_perm; eassumption|exact B].
-  - destruct A as [Hin _]. rewrite B in Hp. apply Permutation_sym, Permutation_nil in Hp. rewrite Hp in Hin. contradiction.
-  - destruct B as [Hin _]. rewrite A in Hp. apply Permutation_nil in Hp. rewrite Hp in Hin. contradiction.
-  - reflexivity.
-Qed.
-
-Lemma nodup_map_inj : forall A B (f : A -> B) l a b,
-  NoDup (map f l) -> In a l -> In b l -> f a = f b -> a = b.
-Proof.
-  induction l as [|x r IH]; cbn; intros a b Hnd Ha Hb E; [contradiction|].
-  inversion Hnd as [|? ? Hnotin Hnd']; subst.
-  destruct Ha as [<-|Ha], Hb as [<-|Hb]; [reflexivity| | |apply IH; assumption].
-  - exfalso. apply Hnotin. rewrite E. apply in_map. exact Hb.
-  - exfalso. apply Hnotin. rewrite <- E. apply in_map. exact Ha.
-Qed.
-
-(* site get_max_item / get_min_item: independent of the order when values are distinct *)
-Theorem get_max_item_order_independent : forall oo1 oo2 l,
-  ord_ok oo1 -> ord_ok oo2 -> NoDup (map snd (l_items l)) ->
-  get_max_item oo1 l = get_max_item oo2 l.
-Proof.
-  intros oo1 oo2 l H1 H2 Hnd.
-  pose proof (get_max_item_spec oo1 H1 l) as A. pose proof (get_max_item_spec oo2 H2 l) as B.
-  destruct (get_max_item oo1 l) as [a|], (get_max_item oo2 l) as [b|].
-  - f_equal. eapply nodup_map_inj; [exact Hnd|apply A|apply B|]. eapply is_max_value_unique; eassumption.
-  - destruct A as [Hin _]. rewrite B in Hin. contradiction.
-  - destruct B as [Hin _]. rewrite A in Hin. contradiction.
-  - reflexivity.
-Qed.
-Theorem get_min_item_order_independent : forall oo1 oo2 l,
-  ord_ok oo1 -> ord_ok oo2 -> NoDup (map snd (l_items l)) ->
-  get_min_item oo1 l = get_min_item oo2 l.
-Proof.
-  intros oo1 oo2 l H1 H2 Hnd.
-  pose proof (get_min_item_spec oo1 H1 l) as A. pose proof (get_min_item_spec oo2 H2 l) as B.
-  destruct (get_min_item oo1 l) as [a|], (get_min_item oo2 l) as [b|].
-  - f_equal. eapply nodup_map_inj; [exact Hnd|apply A|apply B|]. eapply is_min_value_unique; eassumption.
-  - destruct A as [Hin _]. rewrite B in Hin. contradiction.
-  - destruct B as [Hin _]. rewrite A in Hin. contradiction.
-  - reflexivity.
-Qed.
-
-(* ... and refuted when two items tie (defect D18): LIST_MAX(a + x) with L.a = M.x = 1 *)
-Definition tie_list : inklist :=
-  mkList [(mkItem (Some (T "L")) (T "a"), 1); (mkItem (Some (T "M")) (T "x"), 1)] [] [].
-
-Theorem get_max_item_order_refuted :
-  exists oo1 oo2 l, ord_ok oo1 /\ ord_ok oo2 /\ get_max_item oo1 l <> get_max_item oo2 l.
-Proof.
-  exists ord_id, ord_rev, tie_list. split; [apply ord_id_ok|]. split; [apply ord_rev_ok|].
-  vm_compute. discriminate.
-Qed.
-Theorem get_min_item_order_refuted :
-  exists oo1 oo2 l, ord_ok oo1 /\ ord_ok oo2 /\ get_min_item oo1 l <> get_min_item oo2 l.
-Proof.
-  exists ord_id, ord_rev, tie_list. split; [apply ord_id_ok|]. split; [apply ord_rev_ok|].
-  vm_compute. discriminate.
-Qed.
-
-(* ListDefinition::get_item_with_value: duplicate values inside one LIST declaration *)
-Theorem def_item_with_value_order_refuted :
-  exists oo1 oo2 d v, ord_ok oo1 /\ ord_ok oo2 /\ def_item_with_value oo1 d v <> def_item_with_value oo2 d v.
-Proof.
-  exists ord_id, ord_rev, (T "K", [(T "p", 1); (T "q", 1)]), 1.
-  split; [apply ord_id_ok|]. split; [apply ord_rev_ok|]. vm_compute. discriminate.
-Qed.
-
-Theorem def_item_with_value_order_independent : forall oo1 oo2 d v,
-  ord_ok oo1 -> ord_ok oo2 -> NoDup (map snd (snd d)) ->
-  def_item_with_value oo1 d v = def_item_with_value oo2 d v.
-Proof.
-  intros oo1 oo2 d v [_ H1] [_ H2] Hnd. unfold def_item_with_value.
-  assert (Hfind : forall oo, (forall l, Permutation (ord_def oo l) l) ->
-            find (fun nv : text * Z => snd nv =? v) (ord_def oo (snd d)) =
-            find (fun nv : text * Z => snd nv =? v) (snd d)).
-  { intros oo Ho.
-    destruct (find (fun nv : text * Z => snd nv =? v) (ord_def oo (snd d))) as [a|] eqn:Ea;
-    destruct (find (fun nv : text * Z => snd nv =? v) (snd d)) as [b|] eqn:Eb; try reflexivity.
-    - apply find_some in Ea as [Ha Hav]. apply find_some in Eb as [Hb Hbv].
-      apply Z.eqb_eq in Hav. apply Z.eqb_eq in Hbv. f_equal.
-      eapply nodup_map_inj; [exact Hnd|eapply Permutation_in; [apply Ho|exact Ha]|exact Hb|congruence].
-    - apply find_some in Ea as [Ha Hav].
-      eapply find_none in Eb; [|eapply Permutation_in; [apply Ho|exact Ha]]. congruence.
-    - apply find_some in Eb as [Hb Hbv].
-      eapply find_none in Ea; [|eapply Permutation_in; [apply Permutation_sym, Ho|exact Hb]]. congruence. }
-  rewrite (Hfind oo1 H1), (Hfind oo2 H2). reflexivity.
-Qed.
-
-(* the comparisons only look at extreme VALUES: order independent, always *)
-Lemma max_value_eq : forall oo l, get_max_item oo l = None \/ exists k v, get_max_item oo l = Some (k, v) /\ max_value oo l = Some v.
-Proof. intros. unfold max_value. destruct (get_max_item oo l) as [[k v]|]; [right; eauto|left; reflexivity]. Qed.
-
-Theorem list_comparisons_order_independent : forall oo1 oo2 a b,
-  ord_ok oo1 -> ord_ok oo2 ->
-  list_greater_than oo1 a b = list_greater_than oo2 a b /\
-  list_greater_than_or_equals oo1 a b = list_greater_than_or_equals oo2 a b /\
-  list_less_than oo1 a b = list_less_than oo2 a b /\
-  list_less_than_or_equals oo1 a b = list_less_than_or_equals oo2 a b.
-Proof.
-  intros oo1 oo2 a b H1 H2.
-  pose proof (max_value_order_independent oo1 oo2 a a H1 H2 (Permutation_refl _)) as Ma.
-  pose proof (max_value_order_independent oo1 oo2 b b H1 H2 (Permutation_refl _)) as Mb.
-  pose proof (min_value_order_independent oo1 oo2 a a H1 H2 (Permutation_refl _)) as ma.
-  pose proof (min_value_order_independent oo1 oo2 b b H1 H2 (Permutation_refl _)) as mb.
-  unfold max_value, min_value in *.
-  unfold list_greater_than, list_greater_than_or_equals, list_less_than, list_less_than_or_equals.
-  destruct (get_max_item oo1 a) as [[? ?]|], (get_max_item oo2 a) as [[? ?]|]; cbn in Ma; try discriminate;
-  destruct (get_max_item oo1 b) as [[? ?]|], (get_max_item oo2 b) as [[? ?]|]; cbn in Mb; try discriminate;
-  destruct (get_min_item oo1 a) as [[? ?]|], (get_min_item oo2 a) as [[? ?]|]; cbn in ma; try discriminate;
-  destruct (get_min_item oo1 b) as [[? ?]|], (get_min_item oo2 b) as [[? ?]|]; cbn in mb; try discriminate;
-  repeat match goal with H : Some _ = Some _ |- _ => injection H as -> end;
-  repeat split; reflexivity.
-Qed.
-
 (* ---------- stable sort: the result does not depend on the input order when no two
    elements compare equal ---------- *)
 Section SortUnique.
@@ -530,8 +326,495 @@ Proof.
   intros a b c H1 H2. rewrite Z.compare_lt_iff in *. eapply Z.lt_trans; eassumption.
 Qed.
 
-(* site get_ordered_items (Display, LIST_RANGE): independent of the order when no two
-   items share both value and origin *)
+
+(* ---------- the total order `cmp_entries` (value, origin name, item name) ---------- *)
+Definition entry_proj (kv : listitem * Z) : Z * (option text * text) :=
+  (snd kv, (it_origin (fst kv), it_name (fst kv))).
+Definition entry_pc := lex_cmp Z.compare (lex_cmp opt_text_cmp text_cmp).
+
+Lemma entry_pc_strict : strict_cmp entry_pc.
+Proof.
+  apply lex_cmp_strict; [apply Z_compare_strict|].
+  apply lex_cmp_strict; [apply opt_text_cmp_strict|apply text_cmp_strict].
+Qed.
+
+Lemma entry_cmp_lex : forall a b, entry_cmp a b = entry_pc (entry_proj a) (entry_proj b).
+Proof. reflexivity. Qed.
+
+Lemma entry_proj_inj : forall a b, entry_proj a = entry_proj b -> a = b.
+Proof. intros [[oa na] va] [[ob nb] vb] H. cbn in H. injection H as -> -> ->. reflexivity. Qed.
+
+Lemma entry_cmp_eq : forall a b, entry_cmp a b = Eq -> a = b.
+Proof. intros a b H. rewrite entry_cmp_lex in H. apply (sc_eq _ entry_pc_strict) in H. apply entry_proj_inj, H. Qed.
+
+Lemma entry_cmp_antisym : forall a b, entry_cmp b a = CompOpp (entry_cmp a b).
+Proof. intros. rewrite !entry_cmp_lex. apply (sc_antisym _ entry_pc_strict). Qed.
+
+Lemma entry_le_trans : forall a b c, entry_cmp a b <> Gt -> entry_cmp b c <> Gt -> entry_cmp a c <> Gt.
+Proof. intros a b c. rewrite !entry_cmp_lex. apply (le_trans _ _ entry_proj _ entry_pc_strict). Qed.
+
+Lemma entry_le_value : forall a b, entry_cmp a b <> Gt -> snd a <= snd b.
+Proof.
+  intros a b H. unfold entry_cmp in H. destruct (snd a ?= snd b) eqn:E.
+  - apply Z.compare_eq in E. rewrite E. apply Z.le_refl.
+  - apply Z.compare_lt_iff in E. apply Z.lt_le_incl. exact E.
+  - congruence.
+Qed.
+
+Lemma max_by_fold_spec : forall l acc,
+  match fold_left max_by_step l acc with
+  | None => acc = None /\ l = []
+  | Some r => (In r l \/ acc = Some r) /\ (forall x, In x l -> entry_cmp x r <> Gt)
+              /\ (forall a, acc = Some a -> entry_cmp a r <> Gt)
+  end.
+Proof.
+  induction l as [|x t IH]; intros acc; cbn [fold_left].
+  - destruct acc as [r|]; [|split; reflexivity].
+    split; [right; reflexivity|]. split; [intros ? []|]. intros a E. injection E as ->.
+    rewrite entry_cmp_lex, (sc_refl _ entry_pc_strict). discriminate.
+  - specialize (IH (max_by_step acc x)).
+    destruct (fold_left max_by_step t (max_by_step acc x)) as [r|].
+    + destruct IH as [Hin [Hall Hacc]].
+      assert (Hx : entry_cmp x r <> Gt /\ forall a, acc = Some a -> entry_cmp a r <> Gt).
+      { unfold max_by_step in Hacc. destruct acc as [m|].
+        - destruct (entry_cmp m x) eqn:E.
+          + specialize (Hacc _ eq_refl). split; [exact Hacc|]. intros a Ea. injection Ea as <-.
+            eapply entry_le_trans; [|exact Hacc]. congruence.
+          + specialize (Hacc _ eq_refl). split; [exact Hacc|]. intros a Ea. injection Ea as <-.
+            eapply entry_le_trans; [|exact Hacc]. congruence.
+          + specialize (Hacc _ eq_refl). split; [|intros a Ea; injection Ea as <-; exact Hacc].
+            eapply entry_le_trans; [|exact Hacc]. rewrite entry_cmp_antisym, E. discriminate.
+        - specialize (Hacc _ eq_refl). split; [exact Hacc|intros a Ea; discriminate]. }
+      destruct Hx as [Hx Hacc'].
+      split; [|split; [intros y [<-|Hy]; [exact Hx|apply Hall; exact Hy]|exact Hacc']].
+      destruct Hin as [Hin|Hin]; [left; right; exact Hin|].
+      unfold max_by_step in Hin. destruct acc as [m|].
+      * destruct (entry_cmp m x); try (injection Hin as <-; left; left; reflexivity). right; exact Hin.
+      * injection Hin as <-. left; left; reflexivity.
+    + destruct IH as [Hacc _]. unfold max_by_step in Hacc. destruct acc as [m|]; [|discriminate].
+      destruct (entry_cmp m x); discriminate.
+Qed.
+
+Lemma min_by_fold_spec : forall l acc,
+  match fold_left min_by_step l acc with
+  | None => acc = None /\ l = []
+  | Some r => (In r l \/ acc = Some r) /\ (forall x, In x l -> entry_cmp r x <> Gt)
+              /\ (forall a, acc = Some a -> entry_cmp r a <> Gt)
+  end.
+Proof.
+  induction l as [|x t IH]; intros acc; cbn [fold_left].
+  - destruct acc as [r|]; [|split; reflexivity].
+    split; [right; reflexivity|]. split; [intros ? []|]. intros a E. injection E as ->.
+    rewrite entry_cmp_lex, (sc_refl _ entry_pc_strict). discriminate.
+  - specialize (IH (min_by_step acc x)).
+    destruct (fold_left min_by_step t (min_by_step acc x)) as [r|].
+    + destruct IH as [Hin [Hall Hacc]].
+      assert (Hx : entry_cmp r x <> Gt /\ forall a, acc = Some a -> entry_cmp r a <> Gt).
+      { unfold min_by_step in Hacc. destruct acc as [m|].
+        - destruct (entry_cmp m x) eqn:E.
+          + specialize (Hacc _ eq_refl). split; [|intros a Ea; injection Ea as <-; exact Hacc].
+            eapply entry_le_trans; [exact Hacc|]. congruence.
+          + specialize (Hacc _ eq_refl). split; [|intros a Ea; injection Ea as <-; exact Hacc].
+            eapply entry_le_trans; [exact Hacc|]. congruence.
+          + specialize (Hacc _ eq_refl). split; [exact Hacc|]. intros a Ea. injection Ea as <-.
+            eapply entry_le_trans; [exact Hacc|]. rewrite entry_cmp_antisym, E. discriminate.
+        - specialize (Hacc _ eq_refl). split; [exact Hacc|intros a Ea; discriminate]. }
+      destruct Hx as [Hx Hacc'].
+      split; [|split; [intros y [<-|Hy]; [exact Hx|apply Hall; exact Hy]|exact Hacc']].
+      destruct Hin as [Hin|Hin]; [left; right; exact Hin|].
+      unfold min_by_step in Hin. destruct acc as [m|].
+      * destruct (entry_cmp m x); try (right; exact Hin). injection Hin as <-. left; left; reflexivity.
+      * injection Hin as <-. left; left; reflexivity.
+    + destruct IH as [Hacc _]. unfold min_by_step in Hacc. destruct acc as [m|]; [|discriminate].
+      destruct (entry_cmp m x); discriminate.
+Qed.
+
+Section OneOracle.
+Variable tb : tie_break.
+Variable oo : order_oracle.
+Hypothesis Hoo : ord_ok oo.
+
+(* under TieTotal the result is THE greatest / least entry of the map *)
+Definition is_greatest (m : items) (r : listitem * Z) : Prop :=
+  In r m /\ forall x, In x m -> entry_cmp x r <> Gt.
+Definition is_least (m : items) (r : listitem * Z) : Prop :=
+  In r m /\ forall x, In x m -> entry_cmp r x <> Gt.
+
+Lemma get_max_item_total_spec : forall l,
+  match get_max_item_tb oo TieTotal l with
+  | None => l_items l = []
+  | Some r => is_greatest (l_items l) r
+  end.
+Proof.
+  intros l. unfold get_max_item_tb. pose proof (max_by_fold_spec (ord_items oo (l_items l)) None) as H.
+  destruct (fold_left max_by_step (ord_items oo (l_items l)) None) as [r|].
+  - destruct H as [[Hin|Hin] [Hall _]]; [|discriminate]. split.
+    + apply (ord_items_in oo _ _ Hoo). exact Hin.
+    + intros x Hx. apply Hall. apply (ord_items_in oo _ _ Hoo). exact Hx.
+  - destruct H as [_ H]. apply (ord_items_nil oo _ Hoo). exact H.
+Qed.
+Lemma get_min_item_total_spec : forall l,
+  match get_min_item_tb oo TieTotal l with
+  | None => l_items l = []
+  | Some r => is_least (l_items l) r
+  end.
+Proof.
+  intros l. unfold get_min_item_tb. pose proof (min_by_fold_spec (ord_items oo (l_items l)) None) as H.
+  destruct (fold_left min_by_step (ord_items oo (l_items l)) None) as [r|].
+  - destruct H as [[Hin|Hin] [Hall _]]; [|discriminate]. split.
+    + apply (ord_items_in oo _ _ Hoo). exact Hin.
+    + intros x Hx. apply Hall. apply (ord_items_in oo _ _ Hoo). exact Hx.
+  - destruct H as [_ H]. apply (ord_items_nil oo _ Hoo). exact H.
+Qed.
+
+Lemma get_max_item_spec_tb : forall l,
+  match get_max_item_tb oo tb l with
+  | None => l_items l = []
+  | Some kv => is_max (l_items l) kv
+  end.
+Proof.
+  intros l. destruct tb.
+  - unfold get_max_item_tb. pose proof (max_fold_spec (ord_items oo (l_items l)) None) as H.
+    destruct (fold_left max_step (ord_items oo (l_items l)) None) as [kv|].
+    + destruct H as [[Hin|Hin] [Hall _]]; [|discriminate]. split.
+      * apply (ord_items_in oo _ _ Hoo). exact Hin.
+      * intros x Hx. apply Hall. apply (ord_items_in oo _ _ Hoo). exact Hx.
+    + destruct H as [_ H]. apply (ord_items_nil oo _ Hoo). exact H.
+  - pose proof (get_max_item_total_spec l) as H. destruct (get_max_item_tb oo TieTotal l) as [r|]; [|exact H].
+    destruct H as [Hin Hall]. split; [exact Hin|]. intros x Hx. apply entry_le_value, Hall, Hx.
+Qed.
+
+Lemma get_min_item_spec_tb : forall l,
+  match get_min_item_tb oo tb l with
+  | None => l_items l = []
+  | Some kv => is_min (l_items l) kv
+  end.
+Proof.
+  intros l. destruct tb.
+  - unfold get_min_item_tb. pose proof (min_fold_spec (ord_items oo (l_items l)) None) as H.
+    destruct (fold_left min_step (ord_items oo (l_items l)) None) as [kv|].
+    + destruct H as [[Hin|Hin] [Hall _]]; [|discriminate]. split.
+      * apply (ord_items_in oo _ _ Hoo). exact Hin.
+      * intros x Hx. apply Hall. apply (ord_items_in oo _ _ Hoo). exact Hx.
+    + destruct H as [_ H]. apply (ord_items_nil oo _ Hoo). exact H.
+  - pose proof (get_min_item_total_spec l) as H. destruct (get_min_item_tb oo TieTotal l) as [r|]; [|exact H].
+    destruct H as [Hin Hall]. split; [exact Hin|]. intros x Hx. apply entry_le_value, Hall, Hx.
+Qed.
+End OneOracle.
+
+Section Now.
+Variable oo : order_oracle.
+Hypothesis Hoo : ord_ok oo.
+
+Lemma get_max_item_spec : forall l,
+  match get_max_item oo l with None => l_items l = [] | Some kv => is_max (l_items l) kv end.
+Proof. exact (get_max_item_spec_tb tie_break_now oo Hoo). Qed.
+Lemma get_min_item_spec : forall l,
+  match get_min_item oo l with None => l_items l = [] | Some kv => is_min (l_items l) kv end.
+Proof. exact (get_min_item_spec_tb tie_break_now oo Hoo). Qed.
+
+(* the unwraps guarded by an emptiness test in ink_list.rs are safe *)
+Lemma get_max_item_none : forall l, get_max_item oo l = None <-> list_is_empty l = true.
+Proof.
+  intros l. pose proof (get_max_item_spec l) as H. unfold list_is_empty, items_is_empty.
+  destruct (get_max_item oo l) as [kv|].
+  - destruct H as [Hin _]. split; [discriminate|]. destruct (l_items l); [contradiction|discriminate].
+  - rewrite H. split; reflexivity.
+Qed.
+Lemma get_min_item_none : forall l, get_min_item oo l = None <-> list_is_empty l = true.
+Proof.
+  intros l. pose proof (get_min_item_spec l) as H. unfold list_is_empty, items_is_empty.
+  destruct (get_min_item oo l) as [kv|].
+  - destruct H as [Hin _]. split; [discriminate|]. destruct (l_items l); [contradiction|discriminate].
+  - rewrite H. split; reflexivity.
+Qed.
+End Now.
+
+(* the VALUE of the extreme item never depends on the order (nor on the tie-break);
+   the ITEM does not either when no two items have the same value *)
+Definition max_value_tb (tb : tie_break) (oo : order_oracle) (l : inklist) : option Z :=
+  option_map snd (get_max_item_tb oo tb l).
+Definition min_value_tb (tb : tie_break) (oo : order_oracle) (l : inklist) : option Z :=
+  option_map snd (get_min_item_tb oo tb l).
+Definition max_value := max_value_tb tie_break_now.
+Definition min_value := min_value_tb tie_break_now.
+
+Lemma is_max_value_unique : forall m a b, is_max m a -> is_max m b -> snd a = snd b.
+Proof. intros m a b [Ha Ha'] [Hb Hb']. specialize (Ha' _ Hb). specialize (Hb' _ Ha). lia. Qed.
+Lemma is_min_value_unique : forall m a b, is_min m a -> is_min m b -> snd a = snd b.
+Proof. intros m a b [Ha Ha'] [Hb Hb']. specialize (Ha' _ Hb). specialize (Hb' _ Ha). lia. Qed.
+
+Lemma is_max_perm : forall m m' a, Permutation m m' -> is_max m a -> is_max m' a.
+Proof.
+  intros m m' a Hp [Hin Hall]. split; [eapply Permutation_in; eassumption|].
+  intros x Hx. apply Hall. eapply Permutation_in; [apply Permutation_sym; exact Hp|exact Hx].
+Qed.
+Lemma is_min_perm : forall m m' a, Permutation m m' -> is_min m a -> is_min m' a.
+Proof.
+  intros m m' a Hp [Hin Hall]. split; [eapply Permutation_in; eassumption|].
+  intros x Hx. apply Hall. eapply Permutation_in; [apply Permutation_sym; exact Hp|exact Hx].
+Qed.
+
+
+Theorem max_value_order_independent_tb : forall tb1 tb2 oo1 oo2 l l',
+  ord_ok oo1 -> ord_ok oo2 -> Permutation (l_items l) (l_items l') ->
+  max_value_tb tb1 oo1 l = max_value_tb tb2 oo2 l'.
+Proof.
+  intros tb1 tb2 oo1 oo2 l l' H1 H2 Hp. unfold max_value_tb.
+  pose proof (get_max_item_spec_tb tb1 oo1 H1 l) as A. pose proof (get_max_item_spec_tb tb2 oo2 H2 l') as B.
+  destruct (get_max_item_tb oo1 tb1 l) as [a|], (get_max_item_tb oo2 tb2 l') as [b|]; cbn.
+  - f_equal. eapply is_max_value_unique; [eapply is_max_perm; eassumption|exact B].
+  - destruct A as [Hin _]. rewrite B in Hp. apply Permutation_sym, Permutation_nil in Hp. rewrite Hp in Hin. contradiction.
+  - destruct B as [Hin _]. rewrite A in Hp. apply Permutation_nil in Hp. rewrite Hp in Hin. contradiction.
+  - reflexivity.
+Qed.
+Theorem min_value_order_independent_tb : forall tb1 tb2 oo1 oo2 l l',
+  ord_ok oo1 -> ord_ok oo2 -> Permutation (l_items l) (l_items l') ->
+  min_value_tb tb1 oo1 l = min_value_tb tb2 oo2 l'.
+Proof.
+  intros tb1 tb2 oo1 oo2 l l' H1 H2 Hp. unfold min_value_tb.
+  pose proof (get_min_item_spec_tb tb1 oo1 H1 l) as A. pose proof (get_min_item_spec_tb tb2 oo2 H2 l') as B.
+  destruct (get_min_item_tb oo1 tb1 l) as [a|], (get_min_item_tb oo2 tb2 l') as [b|]; cbn.
+  - f_equal. eapply is_min_value_unique; [eapply is_min_perm; eassumption|exact B].
+  - destruct A as [Hin _]. rewrite B in Hp. apply Permutation_sym, Permutation_nil in Hp. rewrite Hp in Hin. contradiction.
+  - destruct B as [Hin _]. rewrite A in Hp. apply Permutation_nil in Hp. rewrite Hp in Hin. contradiction.
+  - reflexivity.
+Qed.
+Theorem max_value_order_independent : forall oo1 oo2 l l',
+  ord_ok oo1 -> ord_ok oo2 -> Permutation (l_items l) (l_items l') ->
+  max_value oo1 l = max_value oo2 l'.
+Proof. exact (max_value_order_independent_tb tie_break_now tie_break_now). Qed.
+Theorem min_value_order_independent : forall oo1 oo2 l l',
+  ord_ok oo1 -> ord_ok oo2 -> Permutation (l_items l) (l_items l') ->
+  min_value oo1 l = min_value oo2 l'.
+Proof. exact (min_value_order_independent_tb tie_break_now tie_break_now). Qed.
+
+Lemma nodup_map_inj : forall A B (f : A -> B) l a b,
+  NoDup (map f l) -> In a l -> In b l -> f a = f b -> a = b.
+Proof.
+  induction l as [|x r IH]; cbn; intros a b Hnd Ha Hb E; [contradiction|].
+  inversion Hnd as [|? ? Hnotin Hnd']; subst.
+  destruct Ha as [<-|Ha], Hb as [<-|Hb]; [reflexivity| | |apply IH; assumption].
+  - exfalso. apply Hnotin. rewrite E. apply in_map. exact Hb.
+  - exfalso. apply Hnotin. rewrite <- E. apply in_map. exact Ha.
+Qed.
+
+
+(* site get_max_item / get_min_item, whatever the tie-break: independent of the order
+   when values are distinct *)
+Theorem get_max_item_order_independent_distinct : forall tb oo1 oo2 l,
+  ord_ok oo1 -> ord_ok oo2 -> NoDup (map snd (l_items l)) ->
+  get_max_item_tb oo1 tb l = get_max_item_tb oo2 tb l.
+Proof.
+  intros tb oo1 oo2 l H1 H2 Hnd.
+  pose proof (get_max_item_spec_tb tb oo1 H1 l) as A. pose proof (get_max_item_spec_tb tb oo2 H2 l) as B.
+  destruct (get_max_item_tb oo1 tb l) as [a|], (get_max_item_tb oo2 tb l) as [b|].
+  - f_equal. eapply nodup_map_inj; [exact Hnd|apply A|apply B|]. eapply is_max_value_unique; eassumption.
+  - destruct A as [Hin _]. rewrite B in Hin. contradiction.
+  - destruct B as [Hin _]. rewrite A in Hin. contradiction.
+  - reflexivity.
+Qed.
+Theorem get_min_item_order_independent_distinct : forall tb oo1 oo2 l,
+  ord_ok oo1 -> ord_ok oo2 -> NoDup (map snd (l_items l)) ->
+  get_min_item_tb oo1 tb l = get_min_item_tb oo2 tb l.
+Proof.
+  intros tb oo1 oo2 l H1 H2 Hnd.
+  pose proof (get_min_item_spec_tb tb oo1 H1 l) as A. pose proof (get_min_item_spec_tb tb oo2 H2 l) as B.
+  destruct (get_min_item_tb oo1 tb l) as [a|], (get_min_item_tb oo2 tb l) as [b|].
+  - f_equal. eapply nodup_map_inj; [exact Hnd|apply A|apply B|]. eapply is_min_value_unique; eassumption.
+  - destruct A as [Hin _]. rewrite B in Hin. contradiction.
+  - destruct B as [Hin _]. rewrite A in Hin. contradiction.
+  - reflexivity.
+Qed.
+
+(* ... and with the total order `cmp_entries`: independent of the order, always *)
+Theorem get_max_item_order_independent_total : forall oo1 oo2 l l',
+  ord_ok oo1 -> ord_ok oo2 -> Permutation (l_items l) (l_items l') ->
+  get_max_item_tb oo1 TieTotal l = get_max_item_tb oo2 TieTotal l'.
+Proof.
+  intros oo1 oo2 l l' H1 H2 Hp.
+  pose proof (get_max_item_total_spec oo1 H1 l) as A. pose proof (get_max_item_total_spec oo2 H2 l') as B.
+  destruct (get_max_item_tb oo1 TieTotal l) as [a|], (get_max_item_tb oo2 TieTotal l') as [b|].
+  - f_equal. destruct A as [Ha Ha'], B as [Hb Hb'].
+    assert (Hab : entry_cmp a b <> Gt) by (apply Hb'; eapply Permutation_in; eassumption).
+    assert (Hba : entry_cmp b a <> Gt) by (apply Ha'; eapply Permutation_in; [apply Permutation_sym; eassumption|exact Hb]).
+    rewrite entry_cmp_antisym in Hba. apply entry_cmp_eq. destruct (entry_cmp a b); cbn in *; congruence.
+  - destruct A as [Hin _]. rewrite B in Hp. apply Permutation_sym, Permutation_nil in Hp. rewrite Hp in Hin. contradiction.
+  - destruct B as [Hin _]. rewrite A in Hp. apply Permutation_nil in Hp. rewrite Hp in Hin. contradiction.
+  - reflexivity.
+Qed.
+Theorem get_min_item_order_independent_total : forall oo1 oo2 l l',
+  ord_ok oo1 -> ord_ok oo2 -> Permutation (l_items l) (l_items l') ->
+  get_min_item_tb oo1 TieTotal l = get_min_item_tb oo2 TieTotal l'.
+Proof.
+  intros oo1 oo2 l l' H1 H2 Hp.
+  pose proof (get_min_item_total_spec oo1 H1 l) as A. pose proof (get_min_item_total_spec oo2 H2 l') as B.
+  destruct (get_min_item_tb oo1 TieTotal l) as [a|], (get_min_item_tb oo2 TieTotal l') as [b|].
+  - f_equal. destruct A as [Ha Ha'], B as [Hb Hb'].
+    assert (Hab : entry_cmp a b <> Gt) by (apply Ha'; eapply Permutation_in; [apply Permutation_sym; eassumption|exact Hb]).
+    assert (Hba : entry_cmp b a <> Gt) by (apply Hb'; eapply Permutation_in; eassumption).
+    rewrite entry_cmp_antisym in Hba. apply entry_cmp_eq. destruct (entry_cmp a b); cbn in *; congruence.
+  - destruct A as [Hin _]. rewrite B in Hp. apply Permutation_sym, Permutation_nil in Hp. rewrite Hp in Hin. contradiction.
+  - destruct B as [Hin _]. rewrite A in Hp. apply Permutation_nil in Hp. rewrite Hp in Hin. contradiction.
+  - reflexivity.
+Qed.
+
+(* ... and refuted for the iteration-order tie-break when two items tie (defect D18):
+   LIST_MAX(a + x) with L.a = M.x = 1 *)
+Definition tie_list : inklist :=
+  mkList [(mkItem (Some (T "L")) (T "a"), 1); (mkItem (Some (T "M")) (T "x"), 1)] [] [].
+
+Theorem get_max_item_order_refuted :
+  exists oo1 oo2 l, ord_ok oo1 /\ ord_ok oo2 /\
+    get_max_item_tb oo1 TieIteration l <> get_max_item_tb oo2 TieIteration l.
+Proof.
+  exists ord_id, ord_rev, tie_list. split; [apply ord_id_ok|]. split; [apply ord_rev_ok|].
+  vm_compute. discriminate.
+Qed.
+Theorem get_min_item_order_refuted :
+  exists oo1 oo2 l, ord_ok oo1 /\ ord_ok oo2 /\
+    get_min_item_tb oo1 TieIteration l <> get_min_item_tb oo2 TieIteration l.
+Proof.
+  exists ord_id, ord_rev, tie_list. split; [apply ord_id_ok|]. split; [apply ord_rev_ok|].
+  vm_compute. discriminate.
+Qed.
+
+(* ---------- ListDefinition::get_item_with_value ---------- *)
+Theorem def_item_with_value_order_refuted :
+  exists oo1 oo2 d v, ord_ok oo1 /\ ord_ok oo2 /\
+    def_item_with_value_tb oo1 TieIteration d v <> def_item_with_value_tb oo2 TieIteration d v.
+Proof.
+  exists ord_id, ord_rev, (T "K", [(T "p", 1); (T "q", 1)]), 1.
+  split; [apply ord_id_ok|]. split; [apply ord_rev_ok|]. vm_compute. discriminate.
+Qed.
+
+Lemma filter_perm : forall A (f : A -> bool) l l', Permutation l l' -> Permutation (filter f l) (filter f l').
+Proof.
+  intros A f l l' H. induction H; cbn.
+  - apply Permutation_refl.
+  - destruct (f x); [apply perm_skip|]; exact IHPermutation.
+  - destruct (f x), (f y); try apply Permutation_refl. apply perm_swap.
+  - eapply perm_trans; eassumption.
+Qed.
+
+(* duplicate-free values: any tie-break, any order *)
+Theorem def_item_with_value_order_independent_distinct : forall tb oo1 oo2 d v,
+  ord_ok oo1 -> ord_ok oo2 -> NoDup (map snd (snd d)) ->
+  def_item_with_value_tb oo1 tb d v = def_item_with_value_tb oo2 tb d v.
+Proof.
+  intros tb oo1 oo2 d v [_ H1] [_ H2] Hnd. unfold def_item_with_value_tb.
+  assert (Hhits : forall oo, (forall l, Permutation (ord_def oo l) l) ->
+            forall a b, In a (filter (fun nv : text * Z => snd nv =? v) (ord_def oo (snd d))) ->
+                        In b (filter (fun nv : text * Z => snd nv =? v) (snd d)) -> a = b).
+  { intros oo Ho a b Ha Hb. apply filter_In in Ha as [Ha Hav]. apply filter_In in Hb as [Hb Hbv].
+    apply Z.eqb_eq in Hav. apply Z.eqb_eq in Hbv.
+    eapply nodup_map_inj; [exact Hnd|eapply Permutation_in; [apply Ho|exact Ha]|exact Hb|congruence]. }
+  assert (Hone : forall oo, (forall l, Permutation (ord_def oo l) l) ->
+            filter (fun nv : text * Z => snd nv =? v) (ord_def oo (snd d)) =
+            filter (fun nv : text * Z => snd nv =? v) (snd d)).
+  { intros oo Ho. pose proof (filter_perm _ (fun nv : text * Z => snd nv =? v) _ _ (Ho (snd d))) as Hp.
+    pose proof (Hhits oo Ho) as Hu.
+    destruct (filter (fun nv : text * Z => snd nv =? v) (ord_def oo (snd d))) as [|a [|a' ra]] eqn:Ea;
+    destruct (filter (fun nv : text * Z => snd nv =? v) (snd d)) as [|b [|b' rb]] eqn:Eb;
+      try reflexivity;
+      try (apply Permutation_length in Hp; cbn in Hp; discriminate).
+    - f_equal. apply Hu; left; reflexivity.
+    - exfalso. assert (b = b') as E.
+      { transitivity a; [symmetry|]; apply Hu; [left; reflexivity|left; reflexivity|left; reflexivity|right; left; reflexivity]. }
+      subst b'. assert (NoDup (b :: b :: rb)) as N.
+      { rewrite <- Eb. apply NoDup_filter. eapply NoDup_map_inv. exact Hnd. }
+      inversion N as [|? ? Hn _]. apply Hn. left; reflexivity. }
+  rewrite (Hone oo1 H1), (Hone oo2 H2). reflexivity.
+Qed.
+
+(* the smallest name among the hits: any order *)
+Lemma min_name_fold_spec : forall l acc,
+  match fold_left min_name_step l acc with
+  | None => acc = None /\ l = []
+  | Some r => (In r l \/ acc = Some r) /\ (forall x, In x l -> text_cmp (fst r) (fst x) <> Gt)
+              /\ (forall a, acc = Some a -> text_cmp (fst r) (fst a) <> Gt)
+  end.
+Proof.
+  assert (Htr : forall a b c : text, text_cmp a b <> Gt -> text_cmp b c <> Gt -> text_cmp a c <> Gt).
+  { intros a b c. apply (le_trans _ _ (fun x : text => x) _ text_cmp_strict). }
+  induction l as [|x t IH]; intros acc; cbn [fold_left].
+  - destruct acc as [r|]; [|split; reflexivity].
+    split; [right; reflexivity|]. split; [intros ? []|]. intros a E. injection E as ->.
+    rewrite text_cmp_refl. discriminate.
+  - specialize (IH (min_name_step acc x)).
+    destruct (fold_left min_name_step t (min_name_step acc x)) as [r|].
+    + destruct IH as [Hin [Hall Hacc]].
+      assert (Hx : text_cmp (fst r) (fst x) <> Gt /\ forall a, acc = Some a -> text_cmp (fst r) (fst a) <> Gt).
+      { unfold min_name_step in Hacc. destruct acc as [m|].
+        - destruct (text_cmp (fst m) (fst x)) eqn:E.
+          + specialize (Hacc _ eq_refl). split; [|intros a Ea; injection Ea as <-; exact Hacc].
+            eapply Htr; [exact Hacc|]. congruence.
+          + specialize (Hacc _ eq_refl). split; [|intros a Ea; injection Ea as <-; exact Hacc].
+            eapply Htr; [exact Hacc|]. congruence.
+          + specialize (Hacc _ eq_refl). split; [exact Hacc|]. intros a Ea. injection Ea as <-.
+            eapply Htr; [exact Hacc|]. rewrite text_cmp_antisym, E. discriminate.
+        - specialize (Hacc _ eq_refl). split; [exact Hacc|intros a Ea; discriminate]. }
+      destruct Hx as [Hx Hacc'].
+      split; [|split; [intros y [<-|Hy]; [exact Hx|apply Hall; exact Hy]|exact Hacc']].
+      destruct Hin as [Hin|Hin]; [left; right; exact Hin|].
+      unfold min_name_step in Hin. destruct acc as [m|].
+      * destruct (text_cmp (fst m) (fst x)); try (right; exact Hin). injection Hin as <-. left; left; reflexivity.
+      * injection Hin as <-. left; left; reflexivity.
+    + destruct IH as [Hacc _]. unfold min_name_step in Hacc. destruct acc as [m|]; [|discriminate].
+      destruct (text_cmp (fst m) (fst x)); discriminate.
+Qed.
+
+Theorem def_item_with_value_order_independent_total : forall oo1 oo2 d v,
+  ord_ok oo1 -> ord_ok oo2 ->
+  def_item_with_value_tb oo1 TieTotal d v = def_item_with_value_tb oo2 TieTotal d v.
+Proof.
+  intros oo1 oo2 d v [_ H1] [_ H2]. unfold def_item_with_value_tb.
+  set (f := fun nv : text * Z => snd nv =? v).
+  assert (Hp : Permutation (filter f (ord_def oo1 (snd d))) (filter f (ord_def oo2 (snd d)))).
+  { apply filter_perm. eapply perm_trans; [apply H1|apply Permutation_sym, H2]. }
+  pose proof (min_name_fold_spec (filter f (ord_def oo1 (snd d))) None) as A.
+  pose proof (min_name_fold_spec (filter f (ord_def oo2 (snd d))) None) as B.
+  destruct (fold_left min_name_step (filter f (ord_def oo1 (snd d))) None) as [a|],
+           (fold_left min_name_step (filter f (ord_def oo2 (snd d))) None) as [b|].
+  - destruct A as [[Ha|Ha] [Ha' _]]; [|discriminate]. destruct B as [[Hb|Hb] [Hb' _]]; [|discriminate].
+    assert (Hab : text_cmp (fst a) (fst b) <> Gt) by (apply Ha'; eapply Permutation_in; [apply Permutation_sym; exact Hp|exact Hb]).
+    assert (Hba : text_cmp (fst b) (fst a) <> Gt) by (apply Hb'; eapply Permutation_in; [exact Hp|exact Ha]).
+    rewrite text_cmp_antisym in Hba.
+    assert (fst a = fst b) as -> by (apply text_cmp_eq; destruct (text_cmp (fst a) (fst b)); cbn in *; congruence).
+    reflexivity.
+  - destruct A as [[Ha|Ha] _]; [|discriminate]. destruct B as [_ B]. rewrite B in Hp.
+    apply Permutation_sym, Permutation_nil in Hp. rewrite Hp in Ha. contradiction.
+  - destruct B as [[Hb|Hb] _]; [|discriminate]. destruct A as [_ A]. rewrite A in Hp.
+    apply Permutation_nil in Hp. rewrite Hp in Hb. contradiction.
+  - reflexivity.
+Qed.
+
+(* ---------- the comparisons only look at extreme VALUES: order independent, always ---------- *)
+Theorem list_comparisons_order_independent : forall oo1 oo2 a b,
+  ord_ok oo1 -> ord_ok oo2 ->
+  list_greater_than oo1 a b = list_greater_than oo2 a b /\
+  list_greater_than_or_equals oo1 a b = list_greater_than_or_equals oo2 a b /\
+  list_less_than oo1 a b = list_less_than oo2 a b /\
+  list_less_than_or_equals oo1 a b = list_less_than_or_equals oo2 a b.
+Proof.
+  intros oo1 oo2 a b H1 H2.
+  pose proof (max_value_order_independent oo1 oo2 a a H1 H2 (Permutation_refl _)) as Ma.
+  pose proof (max_value_order_independent oo1 oo2 b b H1 H2 (Permutation_refl _)) as Mb.
+  pose proof (min_value_order_independent oo1 oo2 a a H1 H2 (Permutation_refl _)) as ma.
+  pose proof (min_value_order_independent oo1 oo2 b b H1 H2 (Permutation_refl _)) as mb.
+  unfold max_value, min_value, max_value_tb, min_value_tb in *.
+  fold (get_max_item oo1 a) (get_max_item oo2 a) (get_max_item oo1 b) (get_max_item oo2 b) in *.
+  fold (get_min_item oo1 a) (get_min_item oo2 a) (get_min_item oo1 b) (get_min_item oo2 b) in *.
+  unfold list_greater_than, list_greater_than_or_equals, list_less_than, list_less_than_or_equals.
+  destruct (get_max_item oo1 a) as [[? ?]|], (get_max_item oo2 a) as [[? ?]|]; cbn in Ma; try discriminate;
+  destruct (get_max_item oo1 b) as [[? ?]|], (get_max_item oo2 b) as [[? ?]|]; cbn in Mb; try discriminate;
+  destruct (get_min_item oo1 a) as [[? ?]|], (get_min_item oo2 a) as [[? ?]|]; cbn in ma; try discriminate;
+  destruct (get_min_item oo1 b) as [[? ?]|], (get_min_item oo2 b) as [[? ?]|]; cbn in mb; try discriminate;
+  repeat match goal with H : Some _ = Some _ |- _ => injection H as -> end;
+  repeat split; reflexivity.
+Qed.
+
+(* ---------- get_ordered_items (Display, LIST_RANGE) ---------- *)
 Definition value_origin (kv : listitem * Z) : Z * option text := (snd kv, it_origin (fst kv)).
 
 Lemma item_sort_cmp_lex : forall a b,
@@ -558,11 +841,13 @@ Proof.
   rewrite IH. apply insert_by_ext. exact H.
 Qed.
 
-Theorem get_ordered_items_order_independent : forall oo1 oo2 l,
+
+(* iteration-order tie-break: independent when no two items share value and origin *)
+Theorem get_ordered_items_order_independent_distinct : forall oo1 oo2 l,
   ord_ok oo1 -> ord_ok oo2 -> NoDup (map value_origin (l_items l)) ->
-  get_ordered_items oo1 l = get_ordered_items oo2 l.
+  get_ordered_items_tb oo1 TieIteration l = get_ordered_items_tb oo2 TieIteration l.
 Proof.
-  intros oo1 oo2 l [H1 _] [H2 _] Hnd. unfold get_ordered_items.
+  intros oo1 oo2 l [H1 _] [H2 _] Hnd. unfold get_ordered_items_tb, sort_cmp_of.
   rewrite !(sort_by_ext _ item_sort_cmp _ _ item_sort_cmp_lex).
   apply (sort_by_order_independent _ _ value_origin _
            (lex_cmp_strict _ _ _ _ Z_compare_strict opt_text_cmp_strict)).
@@ -570,17 +855,43 @@ Proof.
   - eapply Permutation_NoDup; [apply Permutation_map, Permutation_sym, H1|exact Hnd].
 Qed.
 
-Corollary list_display_order_independent : forall oo1 oo2 l,
-  ord_ok oo1 -> ord_ok oo2 -> NoDup (map value_origin (l_items l)) ->
-  list_display oo1 l = list_display oo2 l.
-Proof. intros. unfold list_display. rewrite (get_ordered_items_order_independent oo1 oo2) by assumption. reflexivity. Qed.
+(* total order: independent for every map (a map has no two equal entries) *)
+Theorem get_ordered_items_order_independent_total : forall oo1 oo2 l l',
+  ord_ok oo1 -> ord_ok oo2 -> keys_nodup (l_items l) -> Permutation (l_items l) (l_items l') ->
+  get_ordered_items_tb oo1 TieTotal l = get_ordered_items_tb oo2 TieTotal l'.
+Proof.
+  intros oo1 oo2 l l' [H1 _] [H2 _] Hnd Hp. unfold get_ordered_items_tb, sort_cmp_of.
+  apply (sort_by_order_independent _ _ entry_proj _ entry_pc_strict).
+  - eapply perm_trans; [apply H1|]. eapply perm_trans; [exact Hp|apply Permutation_sym, H2].
+  - eapply Permutation_NoDup; [apply Permutation_map, Permutation_sym, H1|].
+    unfold keys_nodup, keys in Hnd. clear - Hnd. induction (l_items l) as [|x r IH]; cbn; [constructor|].
+    cbn in Hnd. inversion Hnd as [|? ? Hn Hr]; subst. constructor; [|apply IH; exact Hr].
+    intros Hin. apply in_map_iff in Hin as [y [Hy Hin]]. apply entry_proj_inj in Hy. subst y.
+    apply Hn. apply in_map. exact Hin.
+Qed.
 
-(* ... refuted for two items of one declaration with the same value (LIST K = p = 1, q = 1) *)
+Definition list_display_tb (tb : tie_break) (oo : order_oracle) (l : inklist) : text :=
+  join_with (T ", ") (map (fun kv : listitem * Z => it_name (fst kv)) (get_ordered_items_tb oo tb l)).
+
+Lemma list_display_unfold : forall oo l, list_display oo l = list_display_tb tie_break_now oo l.
+Proof. reflexivity. Qed.
+
+Corollary list_display_order_independent_total : forall oo1 oo2 l l',
+  ord_ok oo1 -> ord_ok oo2 -> keys_nodup (l_items l) -> Permutation (l_items l) (l_items l') ->
+  list_display_tb TieTotal oo1 l = list_display_tb TieTotal oo2 l'.
+Proof.
+  intros. unfold list_display_tb.
+  rewrite (get_ordered_items_order_independent_total oo1 oo2 l l') by assumption. reflexivity.
+Qed.
+
+(* ... refuted under the iteration-order tie-break for two items of one declaration with
+   the same value (LIST K = p = 1, q = 1) *)
 Definition same_value_origin_list : inklist :=
   mkList [(mkItem (Some (T "K")) (T "p"), 1); (mkItem (Some (T "K")) (T "q"), 1)] [] [].
 
 Theorem list_display_order_refuted :
-  exists oo1 oo2 l, ord_ok oo1 /\ ord_ok oo2 /\ list_display oo1 l <> list_display oo2 l.
+  exists oo1 oo2 l, ord_ok oo1 /\ ord_ok oo2 /\
+    list_display_tb TieIteration oo1 l <> list_display_tb TieIteration oo2 l.
 Proof.
   exists ord_id, ord_rev, same_value_origin_list. split; [apply ord_id_ok|]. split; [apply ord_rev_ok|].
   vm_compute. discriminate.
